@@ -117,6 +117,10 @@ impl InvalidationRegistry {
     pub fn register(&self, cache_name: &str, metadata: InvalidationMetadata) {
         // Register tags
         {
+            #[cfg(feature = "verif")]
+            crate::verif::yield_point(3001, crate::verif::addr_of(&self.tag_to_caches), crate::verif::Acq::Exclusive, &|| !self.tag_to_caches.is_locked());
+            #[cfg(feature = "verif")]
+            let _verif_held_1 = crate::verif::hold(crate::verif::addr_of(&self.tag_to_caches));
             let mut tag_map = self.tag_to_caches.write();
             for tag in &metadata.tags {
                 tag_map
@@ -128,6 +132,10 @@ impl InvalidationRegistry {
 
         // Register events
         {
+            #[cfg(feature = "verif")]
+            crate::verif::yield_point(3002, crate::verif::addr_of(&self.event_to_caches), crate::verif::Acq::Exclusive, &|| !self.event_to_caches.is_locked());
+            #[cfg(feature = "verif")]
+            let _verif_held_2 = crate::verif::hold(crate::verif::addr_of(&self.event_to_caches));
             let mut event_map = self.event_to_caches.write();
             for event in &metadata.events {
                 event_map
@@ -139,6 +147,10 @@ impl InvalidationRegistry {
 
         // Register dependencies
         {
+            #[cfg(feature = "verif")]
+            crate::verif::yield_point(3003, crate::verif::addr_of(&self.dependency_to_caches), crate::verif::Acq::Exclusive, &|| !self.dependency_to_caches.is_locked());
+            #[cfg(feature = "verif")]
+            let _verif_held_3 = crate::verif::hold(crate::verif::addr_of(&self.dependency_to_caches));
             let mut dep_map = self.dependency_to_caches.write();
             for dep in &metadata.dependencies {
                 dep_map
@@ -149,6 +161,8 @@ impl InvalidationRegistry {
         }
 
         // Store metadata
+        #[cfg(feature = "verif")]
+        crate::verif::yield_point(3004, crate::verif::addr_of(&self.cache_metadata), crate::verif::Acq::Exclusive, &|| !self.cache_metadata.is_locked());
         self.cache_metadata
             .write()
             .insert(cache_name.to_string(), metadata);
@@ -166,6 +180,8 @@ impl InvalidationRegistry {
     where
         F: Fn() + Send + Sync + 'static,
     {
+        #[cfg(feature = "verif")]
+        crate::verif::yield_point(3005, crate::verif::addr_of(&self.clear_callbacks), crate::verif::Acq::Exclusive, &|| !self.clear_callbacks.is_locked());
         self.clear_callbacks
             .write()
             .insert(cache_name.to_string(), Arc::new(callback));
@@ -185,6 +201,8 @@ impl InvalidationRegistry {
     where
         F: Fn(&dyn Fn(&str) -> bool) + Send + Sync + 'static,
     {
+        #[cfg(feature = "verif")]
+        crate::verif::yield_point(3006, crate::verif::addr_of(&self.invalidation_check_callbacks), crate::verif::Acq::Exclusive, &|| !self.invalidation_check_callbacks.is_locked());
         self.invalidation_check_callbacks
             .write()
             .insert(cache_name.to_string(), Arc::new(callback));
@@ -200,6 +218,10 @@ impl InvalidationRegistry {
     ///
     /// Number of caches invalidated
     pub fn invalidate_by_tag(&self, tag: &str) -> usize {
+        #[cfg(feature = "verif")]
+        crate::verif::yield_point(3007, crate::verif::addr_of(&self.tag_to_caches), crate::verif::Acq::Shared, &|| !self.tag_to_caches.is_locked_exclusive());
+        #[cfg(feature = "verif")]
+        let _verif_held_7 = crate::verif::hold(crate::verif::addr_of(&self.tag_to_caches));
         let cache_names = self
             .tag_to_caches
             .read()
@@ -220,6 +242,10 @@ impl InvalidationRegistry {
     ///
     /// Number of caches invalidated
     pub fn invalidate_by_event(&self, event: &str) -> usize {
+        #[cfg(feature = "verif")]
+        crate::verif::yield_point(3008, crate::verif::addr_of(&self.event_to_caches), crate::verif::Acq::Shared, &|| !self.event_to_caches.is_locked_exclusive());
+        #[cfg(feature = "verif")]
+        let _verif_held_8 = crate::verif::hold(crate::verif::addr_of(&self.event_to_caches));
         let cache_names = self
             .event_to_caches
             .read()
@@ -240,6 +266,10 @@ impl InvalidationRegistry {
     ///
     /// Number of caches invalidated
     pub fn invalidate_by_dependency(&self, dependency: &str) -> usize {
+        #[cfg(feature = "verif")]
+        crate::verif::yield_point(3009, crate::verif::addr_of(&self.dependency_to_caches), crate::verif::Acq::Shared, &|| !self.dependency_to_caches.is_locked_exclusive());
+        #[cfg(feature = "verif")]
+        let _verif_held_9 = crate::verif::hold(crate::verif::addr_of(&self.dependency_to_caches));
         let cache_names = self
             .dependency_to_caches
             .read()
@@ -260,6 +290,10 @@ impl InvalidationRegistry {
     ///
     /// `true` if the cache was found and invalidated
     pub fn invalidate_cache(&self, cache_name: &str) -> bool {
+        #[cfg(feature = "verif")]
+        crate::verif::yield_point(3010, crate::verif::addr_of(&self.clear_callbacks), crate::verif::Acq::Shared, &|| !self.clear_callbacks.is_locked_exclusive());
+        #[cfg(feature = "verif")]
+        let _verif_held_10 = crate::verif::hold(crate::verif::addr_of(&self.clear_callbacks));
         if let Some(callback) = self.clear_callbacks.read().get(cache_name) {
             callback();
             true
@@ -278,6 +312,10 @@ impl InvalidationRegistry {
     ///
     /// Number of caches successfully invalidated
     fn invalidate_caches(&self, cache_names: &HashSet<String>) -> usize {
+        #[cfg(feature = "verif")]
+        crate::verif::yield_point(3011, crate::verif::addr_of(&self.clear_callbacks), crate::verif::Acq::Shared, &|| !self.clear_callbacks.is_locked_exclusive());
+        #[cfg(feature = "verif")]
+        let _verif_held_11 = crate::verif::hold(crate::verif::addr_of(&self.clear_callbacks));
         let callbacks = self.clear_callbacks.read();
         let mut count = 0;
 
@@ -293,6 +331,8 @@ impl InvalidationRegistry {
 
     /// Get all caches associated with a tag
     pub fn get_caches_by_tag(&self, tag: &str) -> Vec<String> {
+        #[cfg(feature = "verif")]
+        crate::verif::yield_point(3012, crate::verif::addr_of(&self.tag_to_caches), crate::verif::Acq::Shared, &|| !self.tag_to_caches.is_locked_exclusive());
         self.tag_to_caches
             .read()
             .get(tag)
@@ -302,6 +342,8 @@ impl InvalidationRegistry {
 
     /// Get all caches associated with an event
     pub fn get_caches_by_event(&self, event: &str) -> Vec<String> {
+        #[cfg(feature = "verif")]
+        crate::verif::yield_point(3013, crate::verif::addr_of(&self.event_to_caches), crate::verif::Acq::Shared, &|| !self.event_to_caches.is_locked_exclusive());
         self.event_to_caches
             .read()
             .get(event)
@@ -311,6 +353,8 @@ impl InvalidationRegistry {
 
     /// Get all dependent caches
     pub fn get_dependent_caches(&self, dependency: &str) -> Vec<String> {
+        #[cfg(feature = "verif")]
+        crate::verif::yield_point(3014, crate::verif::addr_of(&self.dependency_to_caches), crate::verif::Acq::Shared, &|| !self.dependency_to_caches.is_locked_exclusive());
         self.dependency_to_caches
             .read()
             .get(dependency)
@@ -345,6 +389,10 @@ impl InvalidationRegistry {
     where
         F: Fn(&str) -> bool,
     {
+        #[cfg(feature = "verif")]
+        crate::verif::yield_point(3015, crate::verif::addr_of(&self.invalidation_check_callbacks), crate::verif::Acq::Shared, &|| !self.invalidation_check_callbacks.is_locked_exclusive());
+        #[cfg(feature = "verif")]
+        let _verif_held_15 = crate::verif::hold(crate::verif::addr_of(&self.invalidation_check_callbacks));
         if let Some(callback) = self.invalidation_check_callbacks.read().get(cache_name) {
             callback(&predicate);
             true
@@ -379,6 +427,10 @@ impl InvalidationRegistry {
     where
         F: Fn(&str, &str) -> bool,
     {
+        #[cfg(feature = "verif")]
+        crate::verif::yield_point(3016, crate::verif::addr_of(&self.invalidation_check_callbacks), crate::verif::Acq::Shared, &|| !self.invalidation_check_callbacks.is_locked_exclusive());
+        #[cfg(feature = "verif")]
+        let _verif_held_16 = crate::verif::hold(crate::verif::addr_of(&self.invalidation_check_callbacks));
         let callbacks = self.invalidation_check_callbacks.read();
         let mut count = 0;
 
@@ -393,11 +445,23 @@ impl InvalidationRegistry {
 
     /// Clear all registrations
     pub fn clear(&self) {
+        #[cfg(feature = "verif")]
+        crate::verif::yield_point(3017, crate::verif::addr_of(&self.tag_to_caches), crate::verif::Acq::Exclusive, &|| !self.tag_to_caches.is_locked());
         self.tag_to_caches.write().clear();
+        #[cfg(feature = "verif")]
+        crate::verif::yield_point(3018, crate::verif::addr_of(&self.event_to_caches), crate::verif::Acq::Exclusive, &|| !self.event_to_caches.is_locked());
         self.event_to_caches.write().clear();
+        #[cfg(feature = "verif")]
+        crate::verif::yield_point(3019, crate::verif::addr_of(&self.dependency_to_caches), crate::verif::Acq::Exclusive, &|| !self.dependency_to_caches.is_locked());
         self.dependency_to_caches.write().clear();
+        #[cfg(feature = "verif")]
+        crate::verif::yield_point(3020, crate::verif::addr_of(&self.cache_metadata), crate::verif::Acq::Exclusive, &|| !self.cache_metadata.is_locked());
         self.cache_metadata.write().clear();
+        #[cfg(feature = "verif")]
+        crate::verif::yield_point(3021, crate::verif::addr_of(&self.clear_callbacks), crate::verif::Acq::Exclusive, &|| !self.clear_callbacks.is_locked());
         self.clear_callbacks.write().clear();
+        #[cfg(feature = "verif")]
+        crate::verif::yield_point(3022, crate::verif::addr_of(&self.invalidation_check_callbacks), crate::verif::Acq::Exclusive, &|| !self.invalidation_check_callbacks.is_locked());
         self.invalidation_check_callbacks.write().clear();
     }
 }
